@@ -4485,6 +4485,8 @@ impl Lexer<'_> {
                     // Unlike pushing, this goes in the same order we expect them
                     // to be handled, not reverse
 
+                    let mode_stack_len_with_call_modes = self.mode_stack.len();
+
                     // Note the difference from below. We already lexed one part of the var name expr,
                     // so we pass `true` and do not pass error, since it won't ever be emitted anyway
                     self.mode_stack
@@ -4510,6 +4512,14 @@ impl Lexer<'_> {
                             pnl: 0,
                         },
                     );
+
+                    // If the macro call lexing has set a checkpoint (to roll back when no
+                    // arguments follow, as in `%do %m=1 %to 2;`), it remembers the stack length
+                    // from before our modes were added. The rollback must keep them
+                    if let Some(checkpoint) = self.checkpoint.as_mut() {
+                        checkpoint.mode_stack_len +=
+                            self.mode_stack.len() - mode_stack_len_with_call_modes;
+                    }
                 }
             }
             _ => {
